@@ -1,2 +1,56 @@
-(* C08 *)
-From Grex Require Import Base.Str.
+(* C08 — anchors: ^ and $ are printed unless disabled, and disabling them changes nothing
+   else. *)
+From Grex Require Import Base.Str Model.Config Model.Cluster Model.Dfa Model.Expr Model.Print
+  Model.Pipeline.
+From Grex Require Import Proofs.Lang Proofs.Spec Proofs.PrintShape Proofs.Construction
+  Proofs.PropsGlue.
+
+(* non-verbose output: flag, optional ^, body, optional $; all four anchor settings share the
+   same body *)
+Theorem C08_anchors_syntax : forall isd c e s t,
+  f_verbose c = false -> f_colour c = false ->
+  regexp_str isd (set_anchors c s t) e =
+  (if f_ci c then [40; 63; 105; 41]%N else []) ++
+  (if s then [] else [94]%N) ++ body_str c e ++ (if t then [] else [36]%N).
+Proof. exact regexp_str_anchors. Qed.
+
+(* the printed body does not depend on the anchor settings *)
+Theorem C08_body_invariant : forall c s t e, body_str (set_anchors c s t) e = body_str c e.
+Proof. exact body_str_anchor_indep. Qed.
+
+(* nor does the language of the generated expression (the expression itself may differ: with
+   both anchors disabled the self-check may select another candidate) *)
+Theorem C08_language_invariant : forall (lit cls : cp -> cp -> Prop) c s t db sc1 sc2 ws e1 e2,
+  let c' := set_anchors c s t in
+  ws <> [] ->
+  oracle_ok db (normalise c db ws) ->
+  no_merge (grapheme_clusters c db (normalise c db ws)) = true ->
+  Pipeline.final_expr c (grapheme_clusters c db (normalise c db ws)) sc1 = Some e1 ->
+  Pipeline.final_expr c' (grapheme_clusters c' db (normalise c' db ws)) sc2 = Some e2 ->
+  forall u, (u <> [] \/ K4 (normalise c db ws) = false) ->
+    (L_expr lit cls e1 u <-> L_expr lit cls e2 u).
+Proof. exact anchors_language. Qed.
+
+(* both anchors disabled and the minimised candidate rejected by the self-check (unminimised
+   candidate or plain alternation): the language is exactly the specification, K4 included *)
+Theorem C08_no_anchors_exact : forall (lit cls : cp -> cp -> Prop) c db sc ws e,
+  ws <> [] ->
+  oracle_ok db (normalise c db ws) ->
+  no_merge (grapheme_clusters c db (normalise c db ws)) = true ->
+  f_no_start c && f_no_end c = true -> sc = SCPass2 \/ sc = SCFail ->
+  Pipeline.final_expr c (grapheme_clusters c db (normalise c db ws)) sc = Some e ->
+  leq (L_expr lit cls e) (Spec lit cls c db ws).
+Proof. exact construction_lang_exact. Qed.
+
+(* verbose mode with the start anchor: the flag line is followed by the unindented ^ line *)
+Theorem C08_verbose_caret : forall isd c e,
+  f_verbose c = true -> f_colour c = false -> f_no_start c = false ->
+  starts_with ((if f_ci c then [40; 63; 105; 120; 41]%N else [40; 63; 120; 41]%N) ++ [10; 94]%N)
+              (regexp_str isd c e) = true.
+Proof. exact regexp_str_verbose_flag_caret. Qed.
+
+Print Assumptions C08_anchors_syntax.
+Print Assumptions C08_body_invariant.
+Print Assumptions C08_language_invariant.
+Print Assumptions C08_no_anchors_exact.
+Print Assumptions C08_verbose_caret.
